@@ -396,12 +396,21 @@ def o1_predicates(ctx):
         if isinstance(st, ast.Assign) and isinstance(st.value, ast.BinOp) and isinstance(st.value.op, ast.Mod) \
                 and au.src(st.value.left) == a and abs((order.fold_const(st.value.right) or 0) - 2 * math.pi) < 1e-12:
             ok_mod, var = True, st.targets[0].id
-        if isinstance(st, ast.If) and var and isinstance(st.test, ast.Compare) and len(st.test.ops) == 1 \
-                and au.src(st.test.left) == var and isinstance(st.test.ops[0], (ast.Gt, ast.GtE)) \
-                and abs((order.fold_const(st.test.comparators[0]) or 0) - math.pi) < 1e-12 and not st.orelse:
-            for s in st.body:
-                if isinstance(s, ast.AugAssign) and isinstance(s.op, ast.Sub) and au.src(s.target) == var \
-                        and abs((order.fold_const(s.value) or 0) - 2 * math.pi) < 1e-12:
+        if isinstance(st, ast.If) and var and not st.orelse:
+            # `var > pi` in any spelling (pi < var, not var <= pi; >= accepted as well: the value pi itself may fold either way)
+            t, pol = au.strip_not(st.test)
+            big = None
+            if isinstance(t, ast.Compare) and len(t.ops) == 1:
+                l, r, op = t.left, t.comparators[0], type(t.ops[0])
+                if not pol:
+                    op = {ast.Lt: ast.GtE, ast.LtE: ast.Gt, ast.Gt: ast.LtE, ast.GtE: ast.Lt}.get(op)
+                if op in (ast.Lt, ast.LtE):
+                    l, r, op = r, l, ast.Gt
+                if op in (ast.Gt, ast.GtE) and au.src(l) == var and abs((order.fold_const(r) or 0) - math.pi) < 1e-12:
+                    big = True
+            for s in st.body if big else []:
+                inc = au.increment(s)
+                if inc is not None and inc[0] == var and inc[1] == -1 and abs((order.fold_const(inc[2]) or 0) - 2 * math.pi) < 1e-12:
                     ok_fold = True
     r = [st for st in fn.body if isinstance(st, ast.Return)]
     ctx.check(ok_mod and ok_fold and r and au.src(r[-1].value) == var, "C12-O1", site,
